@@ -16,6 +16,8 @@
  *                                       (@ = bytes of the last save, - = empty input)
  *   dump S                           -> DUMP type rows cols freqs fz0 filetype fprec dprec format | F .. | Z .. | D ..
  *   free S                           -> FREE
+ *   convert S T TYPE                 -> SET rc   (vnadata_convert(slot S, slot T, TYPE); slot T allocated when empty)
+ *   z0all S RE                       -> SET rc   (vnadata_set_all_z0)
  * A load or save that runs longer than VERIF_ALARM seconds (default 5) prints HANG and exits with 95.
  *   live                             -> LIVE n   (library blocks still allocated; needs allocwrap)
  */
@@ -254,6 +256,19 @@ int main(void)
 		fclose(fp);
 		if (own) free(buf);
 		printf("LOAD %d %s %d %d %d # %s ## %s\n", rc, errname(rc == -1 ? e : 0), nerr, nwarn, lastcat, lastmsg, firstmsg);
+	    } else if (strcmp(op, "convert") == 0) {
+		int t = toki(), type = toki();
+		if (t < 0 || t >= NSLOT) { fprintf(stderr, "harness: bad slot\n"); return 3; }
+		reset();
+		TRACK(1);
+		if (slot[t] == NULL) slot[t] = vnadata_alloc(error_fn, NULL);
+		int rc = slot[t] == NULL ? -2 : vnadata_convert(slot[s], slot[t], (vnadata_parameter_type_t)type);
+		TRACK(0);
+		printf("SET %d\n", rc);
+	    } else if (strcmp(op, "z0all") == 0) {
+		double a = tokd();
+		TRACK(1); int rc = vnadata_set_all_z0(slot[s], a); TRACK(0);
+		printf("SET %d\n", rc);
 	    } else if (strcmp(op, "dump") == 0) {
 		dump(slot[s]);
 	    } else {
